@@ -1003,8 +1003,8 @@ func isFreshObject(addr ssa.Value) bool {
 // integerAddrExempt: sites whose keeper lives outside the function, one construct each.
 var integerAddrExempt = map[string]string{
 	"(*internal/engine/wazevo.moduleEngine).ResolveImportedMemory|importedModuleEngine": "the memory instance is retained by the importer's ModuleInstance.MemoryInstance (internal/wasm resolveImports) and the owner's module engine by MemoryInstance.ownerModuleEngine; both are in the R09.4 link table",
-	"internal/engine/wazevo.buildHostModuleOpaque|m":                                  "the module is retained by compiledModule.module / ModuleInstance.Source of the instance that owns the returned bytes",
-	"internal/engine/wazevo.buildHostModuleOpaque|listeners":                          "the slice is retained by moduleEngine.listeners, assigned from the same compiled.listeners by the only caller",
+	"internal/engine/wazevo.buildHostModuleOpaque|m":                                    "the module is retained by compiledModule.module / ModuleInstance.Source of the instance that owns the returned bytes",
+	"internal/engine/wazevo.buildHostModuleOpaque|listeners":                            "the slice is retained by moduleEngine.listeners, assigned from the same compiled.listeners by the only caller",
 }
 
 func checkIntegerAddresses(c *core.Ctx) {
